@@ -601,6 +601,7 @@ func checkC08(w *World, r *Report) {
 	checkExpressionTextIsSource(w, r, "R08.14")
 	checkOperandsNotPromoted(w, r)
 	checkPostfixParsersWrapTheirOperand(w, r)
+	checkTagTextConsumed(w, r, "R08.17")
 	checkNumberFormatting(w, r)
 	checkMembershipEquality(w, r, evalCases)
 	checkRelationalNumericFirst(w, r, evalCases)
@@ -1818,4 +1819,120 @@ func checkPostfixParsersWrapTheirOperand(w *World, r *Report) {
 		})
 	}
 	r.floor("returns of filter-chain parsers", n, 1)
+}
+
+// checkTagTextConsumed — R08.17: what stands in front of a keyword is read, too.  Where a
+// tokenizer function finds a keyword in a piece of tag text (p = index search in x) and hands
+// the text behind it (x[p+k:]) to a tokenizing function, the text in front of it (x[:p]) is also
+// taken and handed to a function: a tag whose head is cut off loses the words written there
+// (`include 'a' only with {…}` without its `only`), and the rest is read as if they had never
+// been written.
+func checkTagTextConsumed(w *World, r *Report, rule string) {
+	tokT := w.named("ZeroAllocTokenizer")
+	n := 0
+	isSearch := func(c *ssa.Call) (ssa.Value, bool) {
+		g := c.Call.StaticCallee()
+		if g == nil || len(c.Call.Args) < 2 {
+			return nil, false
+		}
+		if b, ok := c.Type().Underlying().(*types.Basic); !ok || b.Info()&types.IsInteger == 0 {
+			return nil, false
+		}
+		name := strings.ToLower(g.Name())
+		if !strings.Contains(name, "index") {
+			return nil, false
+		}
+		if !isString(c.Call.Args[0].Type()) {
+			return nil, false
+		}
+		return c.Call.Args[0], true
+	}
+	usedByCall := func(v ssa.Value) bool {
+		seen := map[ssa.Value]bool{}
+		var walk func(v ssa.Value, d int) bool
+		walk = func(v ssa.Value, d int) bool {
+			if seen[v] || d > 6 || v.Referrers() == nil {
+				return false
+			}
+			seen[v] = true
+			for _, ref := range *v.Referrers() {
+				switch x := ref.(type) {
+				case *ssa.Phi:
+					if walk(x, d+1) {
+						return true
+					}
+				case *ssa.Slice:
+					if walk(x, d+1) {
+						return true
+					}
+				case *ssa.Store:
+					if al, ok := x.Addr.(*ssa.Alloc); ok && al.Referrers() != nil {
+						for _, r2 := range *al.Referrers() {
+							if l, ok := r2.(*ssa.UnOp); ok && l.Op == token.MUL && walk(l, d+1) {
+								return true
+							}
+						}
+					}
+				case *ssa.Call:
+					g := x.Call.StaticCallee()
+					if g != nil && g.Pkg != nil && g.Pkg.Pkg.Path() == "strings" && strings.HasPrefix(g.Name(), "Trim") {
+						if walk(x, d+1) {
+							return true
+						}
+						continue
+					}
+					if g != nil && isTwigFn(g) {
+						return true
+					}
+				}
+			}
+			return false
+		}
+		return walk(v, 0)
+	}
+	for _, fn := range w.pkgFuncs() {
+		if fn.Signature.Recv() == nil || !types.Identical(deref(fn.Signature.Recv().Type()), tokT) {
+			continue
+		}
+		instrsOf(fn, func(in ssa.Instruction) {
+			sl, ok := in.(*ssa.Slice)
+			if !ok || sl.High != nil || sl.Low == nil || !isString(sl.X.Type()) {
+				return
+			}
+			// Low = p + k with p an index search in the sliced text
+			bo, ok := sl.Low.(*ssa.BinOp)
+			if !ok || bo.Op != token.ADD {
+				return
+			}
+			var p ssa.Value
+			for _, cand := range []ssa.Value{bo.X, bo.Y} {
+				if c, ok := unspill(cand).(*ssa.Call); ok {
+					if x, ok := isSearch(c); ok && sameValue(unspill(x), unspill(sl.X)) {
+						p = cand
+					}
+				}
+			}
+			if p == nil || !usedByCall(sl) {
+				return
+			}
+			n++
+			construct := "text in front of the keyword found in " + describe(sl.X) + " is read as well"
+			found := false
+			instrsOf(fn, func(in2 ssa.Instruction) {
+				s2, ok := in2.(*ssa.Slice)
+				if !ok || s2.High == nil || !sameValue(unspill(s2.X), unspill(sl.X)) {
+					return
+				}
+				if sameValue(unspill(s2.High), unspill(p)) && usedByCall(s2) {
+					found = true
+				}
+			})
+			if found {
+				r.ok(rule, ssaName(fn), construct, w.posOf(sl.Pos()), "x[:p] is taken and handed on", true)
+			} else {
+				r.bad(rule, ssaName(fn), construct, w.posOf(sl.Pos()), "only the text behind the keyword is tokenised; what the template wrote in front of it (option words such as `only`, `ignore missing`, a second operand) is dropped, and the tag is read as if it had not been written")
+			}
+		})
+	}
+	r.floor("keyword splits of tag text in the tokenizer", n, 2)
 }
